@@ -1,0 +1,55 @@
+// Copyright 2021-present The Atlas Authors. All rights reserved.
+// This source code is licensed under the Apache 2.0 license found
+// in the LICENSE file in the root directory of this source tree.
+
+//go:build verif
+
+// Package verifhook provides named observation points for external
+// verification harnesses. Without the "verif" build tag it is a no-op.
+package verifhook
+
+import (
+	"encoding/json"
+	"fmt"
+	"os"
+	"strconv"
+	"strings"
+	"sync"
+	"syscall"
+)
+
+var (
+	mu     sync.Mutex
+	seq    int
+	counts = map[string]int{}
+)
+
+// At records one event (sequence number, point, key/value pairs) as a JSON line in the file
+// named by VERIF_TRACE and kills the process (SIGKILL: no deferred code, no buffers flushed)
+// when VERIF_CRASH_AT=<point>:<n> names the n-th occurrence of this point.
+func At(point string, kv ...any) {
+	mu.Lock()
+	defer mu.Unlock()
+	seq++
+	counts[point]++
+	if p := os.Getenv("VERIF_TRACE"); p != "" {
+		m := map[string]any{"seq": seq, "pid": os.Getpid(), "point": point, "occ": counts[point]}
+		for i := 0; i+1 < len(kv); i += 2 {
+			m[fmt.Sprint(kv[i])] = kv[i+1]
+		}
+		if b, err := json.Marshal(m); err == nil {
+			if f, err := os.OpenFile(p, os.O_APPEND|os.O_CREATE|os.O_WRONLY, 0o644); err == nil {
+				f.Write(append(b, '\n'))
+				f.Close()
+			}
+		}
+	}
+	if c := os.Getenv("VERIF_CRASH_AT"); c != "" {
+		if i := strings.LastIndexByte(c, ':'); i > 0 {
+			if n, err := strconv.Atoi(c[i+1:]); err == nil && c[:i] == point && n == counts[point] {
+				syscall.Kill(os.Getpid(), syscall.SIGKILL)
+				select {}
+			}
+		}
+	}
+}
